@@ -83,7 +83,8 @@ var rxCurly = []string{`[0-9]+`, `[a-z]+`, `[A-Z][A-Z]`, `\d{1,3}`, `(?:foo|bar)
 var rxJsr = []string{`[0-9]+`, `[a-z]+`, `[A-Z][A-Z]`, `\d{1,3}`, `(?:foo|bar)`, `ab`}
 var sufPool = []string{".foo", "_x", ".json"}
 var verbPool = []string{":get", ":cancel", ":x"}
-var methodPool = []string{"GET", "POST", "PUT", "PATCH", "DELETE", "HEAD", "OPTIONS", "X-CUSTOM"}
+// the tail of the pool holds names that contain / are contained in other names (Allow lists are sets of whole names)
+var methodPool = []string{"GET", "POST", "PUT", "PATCH", "DELETE", "HEAD", "OPTIONS", "X-CUSTOM", "UNLOCK", "LOCK", "GETALL", "PU"}
 var mimePool = []string{"application/json", "application/xml", "application/zip", "application/octet-stream", "*/*", "application/vnd.x+json", "text/plain"}
 
 // values that satisfy / nearly satisfy each regex of the pools
@@ -291,7 +292,7 @@ func genTable(r *Rng, router int, maxWs int) (TableSpec, []genRoute) {
 				toks = genTokens(r, router, []int{0, 1, 1, 2, 2, 3, 4}[r.Intn(7)], true, used)
 			}
 			rel := renderPath(toks, r)
-			rs := RouteSpec{ID: id, Method: r.Pick(methodPool[:5+r.Intn(4)]), Rel: rel,
+			rs := RouteSpec{ID: id, Method: r.Pick(methodPool[:5+r.Intn(8)]), Rel: rel,
 				Consumes: genMimeList(r), Produces: genMimeList(r)}
 			id++
 			nc := []int{0, 0, 0, 1, 2}[r.Intn(5)]
@@ -322,6 +323,34 @@ var ctPool = []string{"", "", "application/json", "application/xml", "applicatio
 var acceptPool = []string{"", "", "*/*", "application/json", "application/xml", "application/xml;q=0.9, application/json",
 	"text/html", "application/json;q=0.8", " application/xml , */*;q=0.1", "text/*", "application/zip", "application/json,",
 	"text/html,application/xhtml+xml,application/xml;q=0.9,*/*;q=0.8", "application/vnd.x+json", ";q=1", ","}
+
+// a header value that is the declared media type or a near-miss of it: superstring, prefix, other case,
+// parameters, surrounding blanks, a list containing it
+func nearMime(r *Rng, m string) string {
+	switch r.Intn(14) {
+	case 0, 1, 2, 3, 4, 5:
+		return m
+	case 6:
+		return m + r.Pick([]string{"x", "-patch+json", "lines", "+zip", "/"})
+	case 7:
+		if len(m) > 2 {
+			return m[:len(m)-1-r.Intn(len(m)-2)]
+		}
+		return m
+	case 8:
+		return strings.ToUpper(m)
+	case 9:
+		return m + r.Pick([]string{"; charset=utf-8", ";q=0.5", " ;v=1", ";"})
+	case 10:
+		return r.Pick([]string{" ", "  "}) + m + r.Pick([]string{"", " "})
+	case 11:
+		return r.Pick([]string{"text/html", "x" + m, "application/zip"}) + r.Pick([]string{",", ", ", " , "}) + m
+	case 12:
+		return "x" + m
+	default:
+		return m + r.Pick([]string{",text/html", ", */*;q=0.1"})
+	}
+}
 
 func genRequest(r *Rng, routes []genRoute) *Req {
 	q := &Req{}
@@ -369,10 +398,10 @@ func genRequest(r *Rng, routes []genRoute) *Req {
 			q.Method = r.Pick(methodPool)
 		}
 		if len(gr.spec.Consumes) > 0 && r.Pct(60) {
-			q.Set("Content-Type", r.Pick(gr.spec.Consumes))
+			q.Set("Content-Type", nearMime(r, r.Pick(gr.spec.Consumes)))
 		}
 		if len(gr.spec.Produces) > 0 && r.Pct(50) {
-			q.Set("Accept", r.Pick(gr.spec.Produces))
+			q.Set("Accept", nearMime(r, r.Pick(gr.spec.Produces)))
 		}
 	case p < 90:
 		// adversarial paths
